@@ -41,7 +41,7 @@ def run_one(hid):
         res["tests_patched"] = out.strip()
         outdir = os.path.join(tmp, "_verif_out")
         os.makedirs(outdir)
-        env2 = dict(os.environ, PYVC_REPO=tmp, PYVC_OUT=outdir, PYVC_JOBS=os.environ.get("HARMLESS_JOBS", "4"))
+        env2 = dict(os.environ, PYVC_REPO=tmp, PYVC_OUT=outdir, PYVC_SWEEP_CACHE=os.path.join(outdir, ".sweep_cache"), PYVC_JOBS=os.environ.get("HARMLESS_JOBS", "4"))
         det = {}
         for p in PROPS:
             rc, out = sh(f"./check {p}", cwd=CHECK_DIR, env=env2, timeout=1800)
